@@ -62,6 +62,9 @@ class ChannelItem(EFLRItem, DimensionedItem):
         # need the attribute defined for representation code check
         self._cast_dtype: Union[numpy_dtype_type, None] = None
 
+        #: which of: 'dimension', 'element_limit', 'cast_dtype' were derived from the data at the (last) write
+        self._derived_from_data: set[str] = set()
+
         self.long_name = EFLROrTextAttribute('long_name', object_class=LongNameSet)
         self.properties = PropertiesAttribute('properties')
         self.representation_code = ReprCodeAttribute(parent_eflr=self)
@@ -100,6 +103,7 @@ class ChannelItem(EFLRItem, DimensionedItem):
     def cast_dtype(self, dt: Union[numpy_dtype_type, None]) -> None:
         """Set or remove channel cast dtype."""
 
+        self._derived_from_data.discard('cast_dtype')
         self._set_cast_dtype(dt)
 
     def _set_cast_dtype(self, dt: Union[numpy_dtype_type, None]) -> None:
@@ -113,6 +117,14 @@ class ChannelItem(EFLRItem, DimensionedItem):
 
     def set_dimension_and_repr_code_from_data(self, data: SourceDataWrapper) -> None:
         """Determine and dimension and representation code attributes of the ChannelItem based on the source data."""
+
+        # what was derived from the data at a previous write describes that data, not necessarily the current one
+        for derived in self._derived_from_data:
+            if derived == 'cast_dtype':
+                self._set_cast_dtype(None)
+            else:
+                getattr(self, derived)._value = None
+        self._derived_from_data.clear()
 
         sub_data = data[self.name]
         self._set_dimension_from_data(sub_data)
@@ -129,6 +141,7 @@ class ChannelItem(EFLRItem, DimensionedItem):
                                    f"does not match the dimension from data: {dim}")
             logger.debug(f"Setting dimension of {self} to {dim}")
             self.dimension.value = dim
+            self._derived_from_data.add('dimension')
 
         if self.element_limit.value != dim:
             if self.element_limit.value:  # was specified and is not exactly equal to dim
@@ -140,6 +153,7 @@ class ChannelItem(EFLRItem, DimensionedItem):
                 # only set the element limit if it was None before
                 logger.debug(f"Setting element limit of {self} to {dim}")
                 self.element_limit.value = dim
+                self._derived_from_data.add('element_limit')
 
     @staticmethod
     def _compare_element_limit_vs_dimension(el: list[int], dim: list[int]) -> bool:
@@ -175,6 +189,7 @@ class ChannelItem(EFLRItem, DimensionedItem):
             return
 
         self._set_cast_dtype(dt)
+        self._derived_from_data.add('cast_dtype')
 
     def _run_checks_and_set_defaults(self) -> None:
         """Set up default values of ChannelItem parameters if not explicitly set previously."""
